@@ -1,6 +1,6 @@
 ------------------------------ MODULE Conf_Xtea ------------------------------
 EXTENDS Xtea, Json, IOUtils
-VARIABLES l, inst
+VARIABLES tpos, inst
 Rec == ndJsonDeserialize(IOEnv.TRACE)
 OSched(t, k, x) == XteaSched(t, k, x)
 OEnc(ks, b) == XteaEnc(ks, b)
